@@ -62,6 +62,10 @@ def py_cases(n: int, lintable: bool = False, dialect: str = "ansi") -> list:
     ]
 
 
+def py2_cases(n: int, dialect: str = "ansi") -> list:
+    return [{"id": f"py2:{i}", "kind": "py2", "idx": i, "dialect": dialect, "stratum": "py2"} for i in range(n)]
+
+
 def ph_cases(n: int, lintable: bool = False, dialect: str = "ansi") -> list:
     return [
         {"id": f"ph:{int(lintable)}:{i}", "kind": "ph", "lintable": lintable, "idx": i, "dialect": dialect, "stratum": f"ph:{int(lintable)}"}
@@ -100,6 +104,9 @@ def resolve(case: dict) -> dict:
         return {"source": g["source"], "dialect": case["dialect"], "templater": "jinja", "context": g["context"], "features": g["features"], "sections": None}
     if k == "py":
         g = tmpl_gen.gen_pyfmt(case["idx"], case["lintable"])
+        return {"source": g["source"], "dialect": case["dialect"], "templater": "python", "context": g["context"], "features": g["features"], "sections": None}
+    if k == "py2":
+        g = tmpl_gen.gen_pyfmt2(case["idx"])
         return {"source": g["source"], "dialect": case["dialect"], "templater": "python", "context": g["context"], "features": g["features"], "sections": None}
     if k == "ph":
         g = tmpl_gen.gen_placeholder(case["idx"], case["lintable"])
